@@ -140,6 +140,12 @@ def rule_D1(ctx):
     P = r.params[1]
     if _stores(r.node, P):
         raise AnalysisError("Tree.from_dict rebinds its dictionary parameter")
+    for c in calls(r.node):
+        handed = [a for a in list(c.args) + [k.value for k in c.keywords] if isinstance(a, ast.Name) and a.id == P]
+        if handed and not (isinstance(c.func, ast.Name) and c.func.id in ("dict", "len", "print", "sorted", "list")):
+            callee = prog.resolve_function(c.func.id, r.module) if isinstance(c.func, ast.Name) else (prog.method(r.cls, c.func.attr) if isinstance(c.func, ast.Attribute) and r.cls is not None else None)
+            if callee is not None:
+                raise AnalysisError("Tree.from_dict hands its dictionary to %s: which keys are read there, and where they go, is not followed" % callee.qualname)
     pmap = parents(r.node)
     reads = {}  # key -> [(node, guarded)]
     probes = set()
@@ -659,12 +665,25 @@ def rule_R2(ctx, entry_terms):
             append_to_trace(0, timer, trace, tree, tree_dist)
             return trace
         """, st_fi, no_inline=[app.name])
-    same_events(ctx, "R2", "setup_trace makes exactly one append_to_trace(…, <new list>, tree, tree_dist) call", st_fi, ex.calls(app.name), sp.calls(app.name),
-                "append_to_trace calls of setup_trace", skip_args=(0, 1))
-    same(ctx, "R2", "setup_trace returns that list, which starts empty", st_fi, ex.result, sp.result, "returned trace")
-    others = [e for e in ex.events if e.name in (".append", ".extend", ".insert")]
-    if others:
-        raise AnalysisError("setup_trace grows the trace by %s besides append_to_trace (shape not modelled)" % others[0].name)
+    if ex.calls(app.name):
+        same_events(ctx, "R2", "setup_trace makes exactly one append_to_trace(…, <new list>, tree, tree_dist) call", st_fi, ex.calls(app.name), sp.calls(app.name),
+                    "append_to_trace calls of setup_trace", skip_args=(0, 1))
+        same(ctx, "R2", "setup_trace returns that list, which starts empty", st_fi, ex.result, sp.result, "returned trace")
+        others = [e for e in ex.events if e.name in (".append", ".extend", ".insert")]
+        if others:
+            raise AnalysisError("setup_trace grows the trace by %s besides append_to_trace (shape not modelled)" % others[0].name)
+    else:
+        # the first entry is built without going through append_to_trace (a shared record builder, say): decided on
+        # the list that is returned — what `trace = []; append_to_trace(0, timer, trace, tree, tree_dist)` leaves in it
+        ex2 = extract(prog, st_fi, inline=[app.name])
+        sp2 = spec(prog, """
+            def s(timer, tree, tree_dist):
+                trace = []
+                append_to_trace(0, timer, trace, tree, tree_dist)
+                return trace
+            """, st_fi, inline=[app.name])
+        same(ctx, "R2", "setup_trace makes exactly one append_to_trace(…, <new list>, tree, tree_dist) call", st_fi, ex2.result, sp2.result, "returned trace (one entry: iteration 0, the tree and tree_dist handed in)")
+        ctx.ok("R2", "setup_trace returns that list, which starts empty", st_fi.where(), "decided by the comparison of the returned list")
 
     # ---- (2) the call in _run_main_sampler: before the loop, on the tree parameter as received
     body = f.node.body
